@@ -13,8 +13,12 @@ KNOWN = os.path.join(VERIF, "known_findings.json")
 SEED = int(os.environ.get("VERIF_SEED", "1") or "1")
 
 SAN_ENV = {
+    # malloc_context_size / quarantine_size_mb: ASan's stack depot keeps every distinct allocation stack for ever; with
+    # rapidcheck's deep call stacks a shard grew by ~250 KB per case (5 GB per shard at thorough case counts, the kernel
+    # OOM-killed them). Six frames per allocation stack keep the depot flat; error stacks themselves stay complete and
+    # replays run with the full context again.
     "ASAN_OPTIONS": "detect_leaks=1:abort_on_error=0:allocator_may_return_null=1:max_allocation_size_mb=3000:"
-                    "detect_stack_use_after_return=0:handle_abort=1",
+                    "detect_stack_use_after_return=0:handle_abort=1:malloc_context_size=6:quarantine_size_mb=128",
     "UBSAN_OPTIONS": "halt_on_error=1:print_stacktrace=1",
     "TSAN_OPTIONS": "halt_on_error=1:report_signal_unsafe=0",
 }
@@ -171,6 +175,7 @@ def run_shards(res, prop, hname, exe, mode, tier, shards, cases, max_size=100, e
 def replay_once(exe, mode, path, timeout=600):
     env = dict(os.environ)
     env.update(SAN_ENV)
+    env["ASAN_OPTIONS"] = SAN_ENV["ASAN_OPTIONS"].replace("malloc_context_size=6", "malloc_context_size=30")
     env["VERIF_OPEN"] = ""
     bn = os.path.basename(path)
     if bn[:1] == "C" and bn[1:3].isdigit():
@@ -485,12 +490,30 @@ def gen_seed_streams(prop, tier):
 
     with ThreadPoolExecutor(16) as ex:
         list(ex.map(one, range(16)))
-    # workers overlap in the classes they cover: keep at most `cap` streams, smallest first (cheap, dense enumeration)
-    files = sorted(os.listdir(d), key=lambda f: (os.path.getsize(os.path.join(d, f)), f))
+    # File names start with a hash of the class key (encoder code path + attribute-connectivity structure). Workers
+    # overlap in the classes they cover: per class the smallest stream is kept. The `cap` classes with the smallest
+    # streams are enumerated densely; the representatives of the remaining classes (up to `light_cap`) go to a second
+    # directory and get the light single-byte enumeration only, so that every structure class is visited.
+    by_class = {}
+    for f in os.listdir(d):
+        key = f[1:9]
+        sz = os.path.getsize(os.path.join(d, f))
+        if key not in by_class or (sz, f) < by_class[key]:
+            by_class[key] = (sz, f)
+    reps = sorted(by_class.values())
     cap = 260 if tier == "quick" else 2000
-    for f in files[cap:]:
-        os.remove(os.path.join(d, f))
-    return d
+    light_cap = 700 if tier == "quick" else 4000
+    keep = set(f for _, f in reps[:cap])
+    light = set(f for _, f in reps[cap:cap + light_cap])
+    dl = d + "_light"
+    shutil.rmtree(dl, ignore_errors=True)
+    os.makedirs(dl)
+    for f in os.listdir(d):
+        if f in light:
+            os.replace(os.path.join(d, f), os.path.join(dl, f))
+        elif f not in keep:
+            os.remove(os.path.join(d, f))
+    return d, dl, len(by_class)
 
 
 def run_fuzz(res, prop, exe, seed_dirs, seconds, workers, empty_workers, tier):
@@ -507,7 +530,7 @@ def run_fuzz(res, prop, exe, seed_dirs, seconds, workers, empty_workers, tier):
         env["VERIF_PROP"] = prop
         env["VERIF_OUT"] = os.path.join(base, "w%d.json" % i)
         cmd = [exe, out] + (seed_dirs if i < workers else []) + [
-            "-max_total_time=%d" % seconds, "-timeout=25", "-rss_limit_mb=6000", "-max_len=16384",
+            "-max_total_time=%d" % seconds, "-timeout=25", "-rss_limit_mb=3000", "-max_len=16384",
             "-seed=%d" % derive_seed(SEED, prop, "fuzz", i), "-print_final_stats=1",
             "-artifact_prefix=%s/w%d-" % (art, i)]
         log = os.path.join(base, "w%d.log" % i)
@@ -561,29 +584,34 @@ def check_dec(prop, tier):
     t0 = time.time()
     exes = ensure_built(["geom_pbt", "dec_enum", "dec_fuzz", "dec_tamper"])
     res = Result()
-    seeds = gen_seed_streams(prop, tier)
+    seeds, light_seeds, nclasses = gen_seed_streams(prop, tier)
     sys.stderr.write("[%s] seed streams regenerated at %.0fs\n" % (prop, time.time() - t0))
     try:
         nseeds = len(os.listdir(seeds))
+        nlight = len(os.listdir(light_seeds))
         seed_dirs = "%s:%s" % (seeds, os.path.join(VERIF, "corpus", "legacy"))
         # 64 shards on 16 cores: seeds differ a lot in cost, finer shards even the load out
         run_shards(res, prop, "dec_enum", exes["dec_enum"], "enum", tier, 64, 1,
-                   extra_env={"VERIF_SEED_DIRS": seed_dirs, "VERIF_SEED": str(SEED)}, timeout=7200)
+                   extra_env={"VERIF_SEED_DIRS": seed_dirs, "VERIF_LIGHT_SEED_DIRS": light_seeds, "VERIF_SEED": str(SEED)},
+                   timeout=7200)
         sys.stderr.write("[%s] enumeration done at %.0fs\n" % (prop, time.time() - t0))
         if not res.failures:
             # semantic tampering (entropy-coded single-value corruptions of small geometries)
             run_shards(res, prop, "dec_tamper", exes["dec_tamper"], "tamper", tier, 16, 25 if tier == "quick" else 500)
             sys.stderr.write("[%s] semantic tampering done at %.0fs\n" % (prop, time.time() - t0))
         if not res.failures:
-            run_fuzz(res, prop, exes["dec_fuzz"], [seeds, os.path.join(VERIF, "corpus", "legacy")],
+            run_fuzz(res, prop, exes["dec_fuzz"], [seeds, light_seeds, os.path.join(VERIF, "corpus", "legacy")],
                      40 if tier == "quick" else 1200, 12, 4, tier)
     finally:
         shutil.rmtree(seeds, ignore_errors=True)
+        shutil.rmtree(light_seeds, ignore_errors=True)
     sys.stderr.write("[%s] fuzzing done at %.0fs\n" % (prop, time.time() - t0))
     for i, f in enumerate(res.failures):
         if f[1] is None:
             res.failures[i] = (f[0], exes["dec_enum"], f[2], f[3], f[4])
     res.classes["regenerated_seed_streams"] = nseeds
+    res.classes["regenerated_light_seed_streams"] = nlight
+    res.classes["regenerated_seed_classes"] = nclasses
     res.required_classes = ["class_truncation", "class_byte_pattern", "class_u32_pattern", "class_varint_pattern",
                             "class_header_rewrite", "class_splice", "class_multi_site", "class_count_u32",
                             "class_count_varint", "fuzz_executions", "tampered_symbol", "tampered_traversal_symbol",
